@@ -467,6 +467,16 @@ impl<'a> Printer<'a> {
     /// the opening bracket and the closing bracket
     fn sequence(&mut self, items: Vec<String>, allow_comments: bool, trailing_comma_needs_newline: bool) -> String {
         if items.is_empty() {
+            // a comment between the brackets of an empty list / record
+            if allow_comments && self.comments && !self.tape.data.is_empty() && self.tape.chance(1, 4) {
+                self.indent += 2;
+                let c = self.new_comment("inside-empty-collection");
+                let mut out = self.nl();
+                out.push_str(&c);
+                self.indent -= 2;
+                out.push_str(&self.nl());
+                return out;
+            }
             return String::new();
         }
         let fancy = !self.tape.data.is_empty();
@@ -547,9 +557,6 @@ impl<'a> Printer<'a> {
             E::InputRef(f) => format!("#{}", f),
             E::List(items) => {
                 let parts: Vec<String> = items.iter().map(|i| self.slot(i)).collect();
-                if parts.is_empty() {
-                    return "[]".into();
-                }
                 format!("[{}]", self.sequence(parts, true, false))
             }
             E::Rec(entries) => {
@@ -568,9 +575,6 @@ impl<'a> Printer<'a> {
                         }
                     })
                     .collect();
-                if parts.is_empty() {
-                    return "{}".into();
-                }
                 format!("{{{}}}", self.sequence(parts, true, false))
             }
             E::Lambda(ps, body) => {
@@ -716,7 +720,10 @@ impl<'a> Printer<'a> {
     /// previous line could absorb as an infix continuation
     pub fn statement(&mut self, e: &E) -> String {
         let s = self.expr(e, 0);
-        if s.starts_with('-') || s.starts_with('+') { format!("({})", s) } else { s }
+        // `via`, `into` and `where` are ordinary names, but at the start of a line they read as
+        // the infix operator continuing the previous statement
+        let word_start = ["via", "into", "where"].iter().any(|w| s.starts_with(w) && !s[w.len()..].starts_with(|c: char| c.is_ascii_alphanumeric() || c == '_'));
+        if s.starts_with('-') || s.starts_with('+') || word_start { format!("({})", s) } else { s }
     }
 
     /// whole program: statements with blank lines and comments at statement level
@@ -798,7 +805,7 @@ pub fn has_top_level_word(text: &str, words: &[&str]) -> bool {
 // -----------------------------------------------------------------------------------------
 // generators (tape decoders)
 
-pub const NAMES: &[&str] = &["a", "b", "c", "x", "y", "foo", "bar_1", "_t", "total", "n"];
+pub const NAMES: &[&str] = &["a", "b", "c", "x", "y", "foo", "bar_1", "_t", "total", "n", "via", "into", "where"];
 pub const FIELD_NAMES: &[&str] = &["a", "b", "k", "name", "x1"];
 pub const KEY_POOL: &[&str] = &[
     "a", "b", "k", "name", "x1", "two words", "if", "1", "", "é", "a-b", "it's", "say \"hi\"", "café", "x²", "naïve_1", "_ü", "k٣", "1a", "a.b", "true", "sum", "Ａ", "a\\b", "output", "e\u{301}x",
